@@ -554,6 +554,9 @@ class Exec:
         b = self.builtin_call(st, f, args, kwargs, node)
         if b is not NotImplemented:
             return b
+        import math
+        if getattr(f, '__module__', None) == 'math' and not kwargs and all(not is_sym(a) and not isinstance(a, Model) for a in args):
+            return f(*args)         # pure function of the math module on concrete numbers
         name = getattr(f, '__name__', repr(f))
         raise NotInSubset(f'call of {name} (no contract, not a modelled primitive), line {node.lineno}')
 
